@@ -129,8 +129,49 @@ var optLists = []optDef{
 	{"ecs+cookie+nsid+padding+unknown", []dns.EDNS0{raw(65001, 1), ecs(1, 24, 0, 192, 0, 2), raw(dns.EDNS0COOKIE, 1, 2, 3, 4, 5, 6, 7, 8), raw(dns.EDNS0NSID), raw(dns.EDNS0PADDING, 0, 0, 0, 0)}},
 }
 
+func optIdx(id string) uint8 {
+	for i, o := range optLists {
+		if o.id == id {
+			return uint8(i)
+		}
+	}
+	panic("option list not in alphabet: " + id)
+}
+
 // the unknown option added to a query to make its metamorphic twin
 var twinOption = raw(65002, 'v', 'e', 'r', 'i', 'f')
+
+// spellings of the question name: as listed, or with the case of every ASCII letter toggled
+// (DNS 0x20 randomisation: the same name for the database and for the cache key, other bytes on the wire)
+var spellings = []string{"as-listed", "case-toggled"}
+
+// header flag sets of the query (none of them is in the response cache key)
+type bitsDef struct {
+	id         string
+	rd, cd, ad bool
+}
+
+var flagSets = []bitsDef{{"none", false, false, false}, {"rd", true, false, false}, {"cd", false, true, false}, {"rd+cd+ad", true, true, true}}
+
+// firsts are the queries that may PRECEDE a case on a handler with the response
+// cache enabled (index 0 of the dimension: no preceding query, cache disabled).
+// A preceding query has the name (as listed), type, class and client address of
+// the case it precedes - the things the cache key is made of - and its own values
+// in the dimensions the key ignores; it is sent on an empty cache, so that it
+// populates the entry (if the answer is cacheable) which the case then hits.
+type firstDef struct {
+	id           string
+	q            qcase // only the key-ignored dimensions are used
+	thoroughOnly bool
+}
+
+var firsts = []firstDef{
+	{"none", qcase{}, false},
+	{"plain-udp", qcase{}, false},
+	{"toggled-edns4096-do-cookie-tcp-rd+cd+ad", qcase{cas: 1, ver: 1, size: sizeIdx(4096), do: 1, opts: optIdx("cookie8"), tcp: 1, bits: 3}, false},
+	{"edns512-udp-rd", qcase{ver: 1, size: sizeIdx(512), bits: 1}, false},
+	{"notify-2questions-extra-rr", qcase{op: 1, qd: 1, extra: 1}, true},
+}
 
 // ---- one query of the space ----
 
@@ -139,6 +180,29 @@ type qcase struct {
 	size, do, tcp                     uint8 // size group
 	opts                              uint8
 	op, qd, class, extra, client, via uint8 // header group (+ client address, + entry point)
+	cas, bits                         uint8 // spelling of the question name, header flags
+	pre                               uint8 // index into firsts: the query sent before this one (0: none, cache disabled)
+}
+
+func hasLetters(s string) bool {
+	for i := 0; i < len(s); i++ {
+		if b := s[i] | 0x20; b >= 'a' && b <= 'z' {
+			return true
+		}
+	}
+	return false
+}
+
+// toggleCase toggles the case of every ASCII letter of a presentation-format
+// name (escapes consist of a backslash followed by digits or a non-letter here).
+func toggleCase(s string) string {
+	b := []byte(s)
+	for i := range b {
+		if l := b[i] | 0x20; l >= 'a' && l <= 'z' {
+			b[i] ^= 0x20
+		}
+	}
+	return string(b)
 }
 
 func (c qcase) normalised() qcase {
@@ -148,6 +212,9 @@ func (c qcase) normalised() qcase {
 			c.extra = 1 // without an OPT "before" and "after" are the same message
 		}
 	}
+	if c.cas == 1 && (qdcounts[c.qd] == 0 || !hasLetters(names[c.name].pres)) {
+		c.cas = 0 // nothing to toggle
+	}
 	return c
 }
 
@@ -155,7 +222,18 @@ func (c qcase) valid() bool {
 	if qdcounts[c.qd] == 0 && c.via == 0 {
 		return false // a message without a question never reaches the handler directly
 	}
+	if c.pre > 0 && c.via != 0 {
+		return false // two-query histories go to the handler directly (the mux in front of it is stateless)
+	}
 	return true
+}
+
+// first is the query that precedes c (c.pre > 0).
+func (c qcase) first() qcase {
+	f := firsts[c.pre].q
+	f.name, f.typ, f.class, f.client = c.name, c.typ, c.class, c.client
+	f.pre, f.via = 0, 0
+	return f.normalised()
 }
 
 func (c qcase) String() string {
@@ -171,13 +249,22 @@ func (c qcase) String() string {
 	if c.via == 1 {
 		sb.WriteString(",via=mux")
 	}
+	if c.cas != 0 {
+		sb.WriteString(",name=" + spellings[c.cas])
+	}
+	if c.bits != 0 {
+		sb.WriteString(",flags=" + flagSets[c.bits].id)
+	}
+	if c.pre != 0 {
+		sb.WriteString(",cache-on-after=" + firsts[c.pre].id)
+	}
 	return sb.String()
 }
 
 // queryID is a deterministic, case-dependent message id (never 0).
 func (c qcase) queryID() uint16 {
 	h := uint32(2166136261)
-	for _, b := range []uint8{c.name, c.typ, c.ver, c.size, c.do, c.tcp, c.opts, c.op, c.qd, c.class, c.extra, c.client, c.via} {
+	for _, b := range []uint8{c.name, c.typ, c.ver, c.size, c.do, c.tcp, c.opts, c.op, c.qd, c.class, c.extra, c.client, c.via, c.cas, c.bits, c.pre} {
 		h = (h ^ uint32(b)) * 16777619
 	}
 	id := uint16(h>>16) ^ uint16(h)
@@ -193,9 +280,15 @@ func (c qcase) build(twin int) *dns.Msg {
 	m := new(dns.Msg)
 	m.Id = c.queryID()
 	m.Opcode = opcodes[c.op].op
+	fl := flagSets[c.bits]
+	m.RecursionDesired, m.CheckingDisabled, m.AuthenticatedData = fl.rd, fl.cd, fl.ad
 	n := qdcounts[c.qd]
 	if n >= 1 {
-		m.Question = append(m.Question, dns.Question{Name: names[c.name].pres, Qtype: types[c.typ].t, Qclass: classes[c.class].c})
+		qn := names[c.name].pres
+		if c.cas == 1 {
+			qn = toggleCase(qn)
+		}
+		m.Question = append(m.Question, dns.Question{Name: qn, Qtype: types[c.typ].t, Qclass: classes[c.class].c})
 	}
 	if n >= 2 {
 		m.Question = append(m.Question, dns.Question{Name: "second.example.com.", Qtype: dns.TypeTXT, Qclass: dns.ClassINET})
